@@ -130,7 +130,7 @@ func (w *world) decode(b []byte) []entry {
 func (w *world) dump(i int) string {
 	b, err := w.logs[i].MarshalBinary()
 	if err != nil {
-		panic(err)
+		return "unmarshalable"
 	}
 	es := w.decode(b)
 	sort.Slice(es, func(a, b int) bool { return es[a].key < es[b].key })
@@ -183,6 +183,19 @@ func (w *world) exec(line string, retention time.Duration) string {
 			bc = w.decode(w.bc[i][len(w.bc[i])-1])[0].String()
 		}
 		return bc + " " + w.dump(i)
+	case "logbad":
+		// a Log call that cannot be serialised (a receiver-data string that is not valid UTF-8): it fails, and the log is
+		// what it was — in particular it can still be snapshotted and exchanged
+		i, _ := strconv.Atoi(t[1])
+		w.sleepTo(hx.Atoi64(t[2]))
+		gk, r := splitKey(t[3])
+		st := nflog.NewStore(nil)
+		st.SetStr("d", "\xff\xfe bad")
+		res := "ok"
+		if err := w.logs[i].Log(r, gk, []uint64{77}, nil, st, 0); err != nil {
+			res = "error"
+		}
+		return res + " " + w.dump(i)
 	case "merge":
 		i, _ := strconv.Atoi(t[1])
 		w.sleepTo(hx.Atoi64(t[2]))
@@ -464,6 +477,9 @@ func runCase(t *testing.T, tr *hx.Trace, id int, r *rand.Rand, script []string) 
 					}
 					g.usedTS[fmt.Sprintf("%s@%d", k, g.now)] = true
 					expiry = 0
+				}
+				if g.r.IntN(15) == 0 {
+					do(fmt.Sprintf("logbad %d %d %s", i, g.now, k))
 				}
 				do(fmt.Sprintf("log %d %d %s %s %s %s %d", i, g.now, k, hx.U64s(g.u64s()), hx.U64s(g.u64s()), d, expiry))
 				if n := len(w.bc[i]); n > 0 {
